@@ -63,7 +63,7 @@ func TestC14NFSHandleResolveTerminates(t *testing.T) {
 			}
 		}
 		if blocked {
-			fmt.Printf("VERIF-VIOLATION property=C14 the call %s did not return: it waits for the handle pool's lock, which the same call still holds (no step completed during 20 s in which this process had the CPU)\n%s\n", current.Load(), dump)
+			fmt.Printf("VERIF-VIOLATION property=C14 the call %s did not return: it waits for the handle pool's lock, which this call or the step before it took and never released (no step completed during 20 s in which this process had the CPU)\n%s\n", current.Load(), dump)
 			os.Exit(1)
 		}
 		fmt.Printf("VERIF-INCONCLUSIVE: no progress during step %s, but no goroutine is blocked on the handle pool's lock\n%s\n", current.Load(), dump)
